@@ -67,6 +67,16 @@ CHECKS = {
         "_inverse·_matrix == I; rotations and scalings are proved to fix the pivot (T(p)·K·T(-p)·p == p for K without translation part).",
    note=COMMON + "A-numpy, copy.deepcopy (fresh objects, equal contents, nothing shared), linalg.inv assumed. Names are opaque keys (two representative "
         "names). Stack = arbitrary prefix + visible top (the operations only touch the top). Lemma Mat4.mulVec_assoc is checked as a polynomial identity by z3."),
+ "C17": dict(category="proof",
+   text="Device._readline_buf and Device._readline_socket (loop contract for its `while True`): with bytes as sequences and the socket file as an "
+        "assumed contract (read(n) returns None | b'' | 1..n bytes appended to the ghost stream), every call is proved to satisfy the conservation "
+        "equation  cat(buffer) ++ received == result ++ cat(buffer'), every non-empty result is exactly one line (newline-free text + one newline) "
+        "or, after the peer closed, the unterminated tail; READ_EMPTY is returned only when no complete line is buffered and the peer has not "
+        "closed; READ_EOF only with nothing pending; the buffer invariant (only the last chunk may contain a newline) is preserved. Composed over "
+        "calls this is 'the received stream cut after each newline, nothing lost, duplicated or reordered' for every fragmentation.",
+   note="A-str (bytes are z3 strings over code units), socket/selector contracts assumed, the chunk list is represented by (join of all chunks but the last, last chunk) "
+        "which is all the code observes; first-occurrence facts of bytes.find are added as lemma instances (true of str.indexof). Termination/blocking is not claimed. "
+        "Discharged by cvc5 --strings-exp where z3's sequence solver returns unknown."),
  "C20": dict(category="proof",
    text="Loop contract for the hook loop of _prepare_move with an arbitrary number >= 1 of arbitrary hooks: each hook call receives "
         "(resolve(position), true absolute target, params, state) in either distance mode (move and move_absolute); the parameters returned "
@@ -87,7 +97,7 @@ NOT_APPLICABLE = {
  "C14": "checks for this property are still being built in this round (will be claimed once its units discharge); not a statement about applicability",
  "C15": "checks for this property are still being built in this round (will be claimed once its units discharge); not a statement about applicability",
  "C16": "checks for this property are still being built in this round (will be claimed once its units discharge); not a statement about applicability",
- "C17": "checks for this property are still being built in this round (will be claimed once its units discharge); not a statement about applicability",
+ 
  "C18": "checks for this property are still being built in this round (will be claimed once its units discharge); not a statement about applicability",
  "C19": "checks for this property are still being built in this round (will be claimed once its units discharge); not a statement about applicability",
  
